@@ -235,12 +235,73 @@ def r05e(ctx):
     r16g(ctx)
 
 
+def r05f(ctx):
+    """Caller text reaches a paragraph-like element only through the encoder.
+
+    Paragraph, Header and Span take text in their constructor and in append(); the only two ways it may enter the tree are
+    `append_plain_text` (encodes blanks, tabs, line breaks) and `_unformatted` (collapses them on purpose, formatted=False).  A raw store —
+    `self.text = text` on some fast path — leaves a leading or trailing blank, or a lone tab, in the character content, where a consumer
+    collapses it.  Rule: in the constructors and append methods of the paragraph-like classes every `self.text = …` / `self.tail = …`
+    stores a constant or the result of `_unformatted`.
+    """
+    repo = ctx.repo
+    ctx.rule("R05f", "paragraph-like constructors and append() never store caller text raw (only through append_plain_text / _unformatted)", floor=4)
+    n = 0
+    for cname in ("Paragraph", "Header", "Span"):  # the three classes the property quantifies over
+        c = repo.cls(cname)
+        for name in ("__init__", "append"):
+            for f in c.methods.get(name, []):
+                for a in walk_no_nested(f.node):
+                    if not (isinstance(a, ast.Assign) and len(a.targets) == 1 and isinstance(a.targets[0], ast.Attribute) and a.targets[0].attr in ("text", "tail")
+                            and isinstance(a.targets[0].value, ast.Name) and a.targets[0].value.id == "self"):
+                        continue
+                    n += 1
+                    v = a.value
+                    ok = isinstance(v, ast.Constant) or (isinstance(v, ast.Call) and call_name(v) == "_unformatted")
+                    ctx.instance("R05f", f"{f.file}:{f.ident}", f"{norm(a, 50)}: " + ("constant / deliberately unformatted" if ok else "RAW caller text"), ok=ok, nontrivial=not ok, line=a.lineno)
+                    if not ok:
+                        ctx.report("R05f", f, a, norm(a, 60),
+                                   f"{c.name}.{name} stores `{norm(v, 30)}` straight into the element: a leading or trailing blank (or a tab / line break the fast-path test "
+                                   f"did not think of) stays raw in the XML, where any consumer collapses it — the text that is read back by other applications differs")
+    if n == 0:
+        raise AnalysisError("R05f: no text store found in the constructors of the paragraph-like classes")
+
+
+def r05g(ctx):
+    """Every string chunk of the rebuilt content goes through the blank encoder.
+
+    `_expand_spaces` turns the whole content back into strings and elements (every text:s becomes blanks again), so *all* string chunks —
+    not only the newly appended one — must be re-encoded by `_sub_merge_spaces`, and all of them must be split on tabs and line breaks.
+    Rule: in `_merge_spaces` and `_replace_tabs_lb` the test that sends a chunk to the sub-encoder is `isinstance(item, str)` alone: no
+    position, index or identity condition may exempt a string.
+    """
+    repo = ctx.repo
+    ctx.rule("R05g", "every string chunk of the rebuilt content is re-encoded (no positional exemption in _merge_spaces / _replace_tabs_lb)", floor=2)
+    for q, sub in (("Paragraph._merge_spaces", "_sub_merge_spaces"), ("Paragraph._replace_tabs_lb", "_sub_replace_tabs_lb")):
+        f = repo.func(q)
+        calls_ = [c for c in walk_no_nested(f.node) if isinstance(c, ast.Call) and call_name(c) == sub]
+        ok, why = False, f"{sub} is not called"
+        for c in calls_:
+            gs = structural_guards(c, stop=f.node)
+            tests = [t for t, pol in gs]
+            only_type = len(gs) == 1 and gs[0][1] and isinstance(gs[0][0], ast.Call) and call_name(gs[0][0]) == "isinstance"                 and len(gs[0][0].args) == 2 and isinstance(gs[0][0].args[1], ast.Name) and gs[0][0].args[1].id == "str"
+            ok = only_type
+            why = "guarded by isinstance(item, str) alone" if ok else f"guarded by {[norm(t, 40) for t in tests]}"
+        ctx.instance("R05g", f"{f.file}:{f.ident}", f"{sub}(item): {why}", ok=ok, nontrivial=True, line=f.node.lineno)
+        if not ok:
+            ctx.report("R05g", f, calls_[0] if calls_ else f.node, f"{sub}(…) {why}",
+                       f"{q} does not hand every string chunk to {sub}: after _expand_spaces has turned the text:s of the whole paragraph back into blanks, a chunk that is "
+                       f"skipped is appended raw — runs of blanks before an existing tab or line break collapse, single leading blanks stay unencoded")
+
+
 def run(ctx):
     r05a(ctx)
     r05b(ctx)
     r05c(ctx)
     r05d(ctx)
     r05e(ctx)
+    r05f(ctx)
+    r05g(ctx)
 
 
 from ..selftest import Seed, unparse_seed  # noqa: E402
@@ -258,6 +319,12 @@ SEEDS = [
     Seed("tabs and line breaks replaced before the blanks are merged", "fault", _P,
          "        content = self._merge_spaces(content)\n        content = self._replace_tabs_lb(content)", "        content = self._replace_tabs_lb(content)\n        content = self._merge_spaces(content)", "R05e"),
     Seed("inner_text drops the tails", "fault", "src/odfdo/element.py", '        return str(self) + (self.tail or "")', "        return str(self)", "R05d"),
+    Seed("Span constructor stores plain text raw", "fault", _P,
+         "                if formatted:\n                    self.text = \"\"\n                    self.append_plain_text(text)  # type:ignore\n                else:\n                    self.text = self._unformatted(text)  # type:ignore\n            if style:\n                self.style = style\n\n    def __str__",
+         "                if formatted and '  ' in text:\n                    self.text = \"\"\n                    self.append_plain_text(text)  # type:ignore\n                elif formatted:\n                    self.text = text\n                else:\n                    self.text = self._unformatted(text)  # type:ignore\n            if style:\n                self.style = style\n\n    def __str__", "R05f"),
+    Seed("_merge_spaces re-encodes only the last chunk", "fault", _P,
+         "        for item in content:\n            if isinstance(item, str):\n                result.extend(self._sub_merge_spaces(item))",
+         "        last = len(content) - 1\n        for index, item in enumerate(content):\n            if index == last and isinstance(item, str):\n                result.extend(self._sub_merge_spaces(item))", "R05g"),
     unparse_seed(_P), unparse_seed(_PB),
     Seed("inner run: count computed in two steps", "neutral", _P, "                    spacer = Spacer(len(item) - 1)\n", "                    spacer = Spacer(len(item) - 2 + 1)\n"),
 ]
